@@ -32,7 +32,9 @@ EXPLANATION = 'to_networkx / from_networkx (three classes, over a model of the g
 THEOREMS = ["Pfl.Nx.FA.roundtrip",
             "Pfl.Nx.PDA.roundtrip",
             "Pfl.Nx.FST.roundtrip",
-            "Pfl.Nx.PDA.roundtrip_needs_hidden",
+            "Pfl.Nx.PDA.roundtrip_hidden_name",
+            "Pfl.Nx.PDA.import_old_format",
+            "Pfl.Nx.PDA.import_old_format_needs_name",
             "Pfl.TextCodec.fromText_toText",
             "Pfl.TextCodec.fromText_toText_needs_not_special",
             "Pfl.Ebnf.bodies_lines",
